@@ -40,7 +40,7 @@ func c17resolve(sym string, n int) int {
 }
 
 func c17alphabet() []c17op {
-	ops := []c17op{{"push", 0}, {"pushdup", 0}, {"pop", 0}, {"peek", 0}, {"empty", 0}}
+	ops := []c17op{{"push", 0}, {"pushdup", 0}, {"pushreuse", 0}, {"pop", 0}, {"peek", 0}, {"empty", 0}}
 	for i := range c17args {
 		ops = append(ops, c17op{"popn", i}, c17op{"peekn", i})
 	}
@@ -58,6 +58,7 @@ type c17ref struct {
 	items   []string
 	pushes  int
 	lastStz string
+	shared  *UnAckedStz // one element object that the caller fills again for every "pushreuse"
 }
 
 func c17payloads(q []Queueable) ([]string, bool) {
@@ -90,14 +91,24 @@ func c17apply(q *UnAckQueue, ref *c17ref, o c17op) (string, string) {
 	before := c17snapshot(q)
 	n := len(ref.items)
 	switch o.kind {
-	case "push", "pushdup":
+	case "push", "pushdup", "pushreuse":
 		stz := ref.lastStz
-		if o.kind == "push" || stz == "" {
+		if o.kind != "pushdup" || stz == "" {
 			stz = fmt.Sprintf("<s n='%d'/>", ref.pushes)
 		}
 		ref.pushes++
 		ref.lastStz = stz
-		if err := q.Push(&UnAckedStz{Id: 777, Stz: stz}); err != nil {
+		el := &UnAckedStz{Id: 777, Stz: stz}
+		if o.kind == "pushreuse" {
+			// the caller re-uses one element object (a loop variable, say): the queue must hold
+			// what was pushed, not what the caller's object says later
+			if ref.shared == nil {
+				ref.shared = &UnAckedStz{}
+			}
+			ref.shared.Id, ref.shared.Stz = 777, stz
+			el = ref.shared
+		}
+		if err := q.Push(el); err != nil {
 			return "push-error", err.Error()
 		}
 		ref.items = append(ref.items, stz)
